@@ -2587,6 +2587,31 @@ class Interp:
     def p_getrecursionlimit(self, a, k, n):
         return Sym('sys.getrecursionlimit()', 'int')
 
+    def _int_text(self, fname, a, n):
+        if len(a) == 1 and isinstance(a[0], Const) and isinstance(a[0].v, int):
+            return Const({'hex': hex, 'oct': oct, 'bin': bin}[fname](a[0].v))
+        if len(a) == 1 and isinstance(a[0], Const):
+            raise Raised("TypeError: '%s' object cannot be interpreted as an integer" % type(a[0].v).__name__, getattr(n, 'lineno', 0))
+        return SymStr('%s(%s)' % (fname, ','.join(_prov(x) for x in a)), nonempty=True)
+
+    def p_hex(self, a, k, n):
+        return self._int_text('hex', a, n)
+
+    def p_oct(self, a, k, n):
+        return self._int_text('oct', a, n)
+
+    def p_bin(self, a, k, n):
+        return self._int_text('bin', a, n)
+
+    def p_sys_get_int_max_str_digits(self, a, k, n):
+        return Sym('sys.get_int_max_str_digits()', 'int')     # an interpreter setting: unknown integer
+
+    def p_get_int_max_str_digits(self, a, k, n):
+        return Sym('sys.get_int_max_str_digits()', 'int')
+
+    def p_sys_getsizeof(self, a, k, n):
+        return Sym('sys.getsizeof(%s)' % ','.join(_prov(x) for x in a), 'int')
+
     def p_range(self, a, k, n):
         if not all(isinstance(x, Const) and isinstance(x.v, int) for x in a) or not 1 <= len(a) <= 3:
             raise Undecided('range over symbolic bounds (line %s)' % getattr(n, 'lineno', '?'))
